@@ -286,6 +286,33 @@ def score_pairing_monitor(rep, kind, method, s, val, full_val, sc, full_sc, samp
             return
 
 
+def refit_monitor(rep, rng, data, n, m, grid):
+    """the selection rule is a property of the estimator's configuration: an estimator created with a fraction (or with
+    None) and fitted on ANOTHER dataset first keeps, on this dataset, exactly what a fresh estimator keeps"""
+    from FDApy.preprocessing.dim_reduction.ufpca import UFPCA
+    other = make_dense(rng, n + 3, m + 4, "uniform", True)
+    for method in ("covariance", "inner-product"):
+        for s in (0.9, 0.5, None):
+            with warnings.catch_warnings():
+                warnings.simplefilter("ignore")
+                fresh = UFPCA(n_components=s, method=method); fresh.fit(data, method_smoothing=None)
+                used = UFPCA(n_components=s, method=method); used.fit(other, method_smoothing=None)
+                used.fit(data, method_smoothing=None)
+                back = UFPCA(n_components=s, method=method); back.fit(data, method_smoothing=None)
+                back.fit(other, method_smoothing=None)
+                fresh_o = UFPCA(n_components=s, method=method); fresh_o.fit(other, method_smoothing=None)
+            rep.dist["refit/selection"] = rep.dist.get("refit/selection", 0) + 1
+            for lab, a_, b_ in (("this dataset after another one", fresh, used), ("a bigger dataset after this one", fresh_o, back)):
+                e1, e2 = np.asarray(a_.eigenvalues, float), np.asarray(b_.eigenvalues, float)
+                if e1.shape != e2.shape or not np.array_equal(e1, e2, equal_nan=True):
+                    rep.violation(f"UFPCA({method}, n_components={s}) fitted on {lab}: keeps {len(e2)} components "
+                                  f"{[float(v) for v in e2[:4]]}..., a fresh estimator keeps {len(e1)} {[float(v) for v in e1[:4]]}... "
+                                  f"(the configured selection rule is not what is applied at the second fit)",
+                                  {"level": "api", "estimator": "UFPCA", "method": method, "sel": s, "grid": grid,
+                                   "data_values": C.hexf(np.asarray(data.values)), "other_values": C.hexf(np.asarray(other.values))})
+                    break
+
+
 def mfpca_pairing_monitor(rep, data, default_exp):
     """MFPCA(covariance): the eigenfunction reported with eigenvalue k is built from THE eigenvector of eigenvalue k, every
     component from its own block of it: the reported eigenfunctions are then orthonormal in the product space and
@@ -364,6 +391,8 @@ def api_level(rep, rng, quick):
                 comps_mv.append(make_dense(rng, n, m + 3, "nonuniform", rough))      # three components of different sizes
             data = MultivariateFunctionalData(comps_mv)
             mfpca_pairing_monitor(rep, data, default_exp=(i % 8 == 7))
+        if kind == "UFPCA" and grid != "irregular":
+            refit_monitor(rep, rng, data, n, m, grid)
         for method in ("covariance", "inner-product"):
             try:
                 full_val, full_fun = api_fit(kind, method, data, None, default_exp=(i % 8 == 7))
